@@ -321,8 +321,16 @@ struct World {
     domain* dom = nullptr;
     // level2var[level] for evaluation after reordering; identity by default
     World() {}
-    explicit World(const Shape& s) : shape(s) { N = s.npoints(); dom = makeDomain(s); }
-    long tableSize(bool rel) const { return rel ? N * N : N; }
+    // Relations: a point is (from, to) with from in [0,N) over `shape` and to in [0,NP) over `shapeP`, numbered from*NP + to.
+    // shapeP == shape (NP == N) unless the world was created with larger primed bounds (domain::enlargeVariableBound(v, true, b)).
+    Shape shapeP; long NP = 0;
+    explicit World(const Shape& s) : shape(s), shapeP(s) { N = NP = s.npoints(); dom = makeDomain(s); }
+    World(const Shape& s, const Shape& sp) : shape(s), shapeP(sp) {
+        N = s.npoints(); NP = sp.npoints(); dom = makeDomain(s);
+        for (int v = 1; v <= s.n(); v++) if (sp.sizes[size_t(v)] > s.sizes[size_t(v)]) dom->enlargeVariableBound(unsigned(v), true, sp.sizes[size_t(v)]);
+    }
+    bool asymmetric() const { return NP != N; }
+    long tableSize(bool rel) const { return rel ? N * NP : N; }
 };
 
 // Set the assignment of point p (set) into minterm m of forest f.  Minterm positions are
@@ -330,6 +338,13 @@ struct World {
 static inline void setMintermSet(const forest* f, const Shape& sh, minterm& m, long p) {
     std::vector<int> a; sh.decode(p, a);
     for (int lvl = 1; lvl <= sh.n(); lvl++) m.setVar(unsigned(lvl), a[f ? f->getVarByLevel(lvl) : lvl]);
+}
+static inline void setMintermRel(const forest* f, const Shape& sh, const Shape& shP, minterm& m, long from, long to) {
+    std::vector<int> a, b; sh.decode(from, a); shP.decode(to, b);
+    for (int lvl = 1; lvl <= sh.n(); lvl++) {
+        int v = f ? f->getVarByLevel(lvl) : lvl;
+        m.setVars(unsigned(lvl), a[v], b[v]);
+    }
 }
 static inline void setMintermRel(const forest* f, const Shape& sh, minterm& m, long from, long to) {
     std::vector<int> a, b; sh.decode(from, a); sh.decode(to, b);
@@ -354,10 +369,10 @@ static inline Table evalAll(const World& w, const dd_edge& e) {
             t[size_t(p)] = fromRV(rv);
         }
     } else {
-        for (long a = 0; a < w.N; a++) for (long b = 0; b < w.N; b++) {
-            setMintermRel(f, w.shape, m, a, b);
+        for (long a = 0; a < w.N; a++) for (long b = 0; b < w.NP; b++) {
+            setMintermRel(f, w.shape, w.shapeP, m, a, b);
             e.evaluate(m, rv);
-            t[size_t(a * w.N + b)] = fromRV(rv);
+            t[size_t(a * w.NP + b)] = fromRV(rv);
         }
     }
     return t;
@@ -373,7 +388,7 @@ static inline std::string pointStr(const World& w, bool rel, size_t idx) {
         return s + ")";
     }
     std::vector<int> b;
-    w.shape.decode(long(idx) / w.N, a); w.shape.decode(long(idx) % w.N, b);
+    w.shape.decode(long(idx) / w.NP, a); w.shapeP.decode(long(idx) % w.NP, b);
     s = "(";
     for (int v = w.shape.n(); v >= 1; v--) { s += tos(a[v]); if (v > 1) s += ","; }
     s += ")->(";
@@ -433,7 +448,7 @@ static inline void buildFromTable(const World& w, forest* f, const Table& t, dd_
         if (valEq(t[i], bg)) continue;
         minterm& m = mc.unused();
         if (!rel) setMintermSet(f, w.shape, m, long(i));
-        else setMintermRel(f, w.shape, m, long(i) / w.N, long(i) % w.N);
+        else setMintermRel(f, w.shape, w.shapeP, m, long(i) / w.NP, long(i) % w.NP);
         m.setValue(toRV(t[i]));
         mc.pushUnused();
     }
@@ -488,10 +503,10 @@ static inline std::vector<Val> alphabet(Rng& r, const FSpec& f, bool allowNeg = 
 }
 
 // Random table with the forest's default as background.
-static inline Table randomTable(Rng& r, const World& w, const FSpec& f, const std::vector<Val>& alpha) {
+static inline Table randomTable(Rng& r, const World& w, const FSpec& f, const std::vector<Val>& alpha, int forceShape = -1) {
     long n = w.tableSize(f.rel);
     Table t(size_t(n), f.deflt());
-    int shape = int(r.below(8));
+    int shape = int(r.below(8)); if (forceShape >= 0) shape = forceShape;
     auto val = [&]() { return alpha[r.below(alpha.size())]; };
     switch (shape) {
         case 0: break;                                           // constant default
@@ -508,12 +523,12 @@ static inline Table randomTable(Rng& r, const World& w, const FSpec& f, const st
         case 4: {                                                // depends on one variable
             int v = r.range(1, w.shape.n());
             bool primed = f.rel && r.chance(1, 2);
-            std::vector<Val> pv(size_t(w.shape.sizes[v]));
+            std::vector<Val> pv(size_t(w.shapeP.sizes[v]));
             for (auto& x : pv) x = r.chance(2, 3) ? val() : f.deflt();
             std::vector<int> a;
             for (long i = 0; i < n; i++) {
-                long p = f.rel ? (primed ? i % w.N : i / w.N) : i;
-                w.shape.decode(p, a);
+                long p = f.rel ? (primed ? i % w.NP : i / w.NP) : i;
+                (f.rel && primed ? w.shapeP : w.shape).decode(p, a);
                 t[size_t(i)] = pv[size_t(a[v])];
             }
             break;
@@ -526,7 +541,7 @@ static inline Table randomTable(Rng& r, const World& w, const FSpec& f, const st
                     if (r.chance(1, 2)) fx[size_t(v)] = r.range(0, w.shape.sizes[v] - 1);
                     if (f.rel) {
                         int m = int(r.below(3));
-                        if (m == 0) tx[size_t(v)] = r.range(0, w.shape.sizes[v] - 1);
+                        if (m == 0) tx[size_t(v)] = r.range(0, w.shapeP.sizes[v] - 1);
                         else if (m == 1) tx[size_t(v)] = -2;   // unchanged
                     }
                 }
@@ -538,7 +553,7 @@ static inline Table randomTable(Rng& r, const World& w, const FSpec& f, const st
                         w.shape.decode(i, a);
                         for (int v = 1; v <= w.shape.n() && ok; v++) if (fx[size_t(v)] >= 0 && a[v] != fx[size_t(v)]) ok = false;
                     } else {
-                        w.shape.decode(i / w.N, a); w.shape.decode(i % w.N, b);
+                        w.shape.decode(i / w.NP, a); w.shapeP.decode(i % w.NP, b);
                         for (int v = 1; v <= w.shape.n() && ok; v++) {
                             if (fx[size_t(v)] >= 0 && a[v] != fx[size_t(v)]) ok = false;
                             if (tx[size_t(v)] >= 0 && b[v] != tx[size_t(v)]) ok = false;
@@ -557,11 +572,20 @@ static inline Table randomTable(Rng& r, const World& w, const FSpec& f, const st
                 for (int v = 1; v <= w.shape.n(); v++) idv[size_t(v)] = r.chance(2, 3);
                 std::vector<int> a, b;
                 Val cv = val();
+                // sub-modes: 0 = pattern with holes and mixed values; 1 = the exact pattern with one value (identity-reduced forests
+                // store it as level-skipping edges); 2 = block diagonal: the value depends on the from-value of one identity variable
+                const int sub = int(r.below(3));
+                int bv = 0; for (int v = w.shape.n(); v >= 1; v--) if (idv[size_t(v)]) { bv = v; if (r.chance(1, 2)) break; }
+                if (!bv) { bv = r.range(1, w.shape.n()); idv[size_t(bv)] = true; }
+                std::vector<Val> blockVal(size_t(w.shape.sizes[size_t(bv)])); for (auto& x : blockVal) x = val();
                 for (long i = 0; i < n; i++) {
-                    w.shape.decode(i / w.N, a); w.shape.decode(i % w.N, b);
+                    w.shape.decode(i / w.NP, a); w.shapeP.decode(i % w.NP, b);
                     bool ok = true;
                     for (int v = 1; v <= w.shape.n() && ok; v++) if (idv[size_t(v)] && a[v] != b[v]) ok = false;
-                    if (ok && r.chance(7, 8)) t[size_t(i)] = r.chance(3, 4) ? cv : val();
+                    if (!ok) continue;
+                    if (sub == 0) { if (r.chance(7, 8)) t[size_t(i)] = r.chance(3, 4) ? cv : val(); }
+                    else if (sub == 1) t[size_t(i)] = cv;
+                    else t[size_t(i)] = blockVal[size_t(a[size_t(bv)])];
                 }
             } else {
                 for (long i = 0; i < n / 2; i++) t[size_t(i)] = val();
